@@ -182,3 +182,39 @@ func VerifMapLinearizable() {
 var vInitVal int
 
 func zzverifInit(h *vHist) (int, bool) { return vInitVal, true }
+
+// Range is one atomic snapshot: while another goroutine stores k1 and then k2, Range never reports the old value of
+// k1 together with the new value of k2.
+//
+//verif:harness prop=C14 name=map_range_atomic threads=2 sched=delay preempt=3 t_preempt=4 unwind=10 race=violation witness=lenient
+func VerifMapRangeAtomic() {
+	m := NewMap[int, int]()
+	o1, o2, n1, n2 := zzverif.Int("old1"), zzverif.Int("old2"), zzverif.Int("new1"), zzverif.Int("new2")
+	zzverif.Assume(o1 != n1)
+	zzverif.Assume(o2 != n2)
+	m.Store(1, o1)
+	m.Store(2, o2)
+	done := make(chan struct{}, 1)
+	go func() {
+		m.Store(1, n1)
+		m.Store(2, n2)
+		done <- struct{}{}
+	}()
+	var s1, s2 int
+	cnt := 0
+	m.Range(func(k, v int) bool {
+		cnt++
+		if k == 1 {
+			s1 = v
+		} else {
+			s2 = v
+		}
+		return true
+	})
+	<-done
+	zzverif.Assert(cnt == 2, "range_visits_all")
+	zzverif.Assert(!zzverif.And(s1 == o1, s2 == n2), "range_is_atomic_snapshot")
+	zzverif.Assert(zzverif.Or(s1 == o1, s1 == n1), "range_yields_stored_values")
+	zzverif.Assert(zzverif.Or(s2 == o2, s2 == n2), "range_yields_stored_values")
+	zzverif.Cover("map_range_atomic_done")
+}
